@@ -74,15 +74,19 @@ def insert(groups, existing, existing_binary, new, typ, create_group):
     raise ValueError(existing)
 
 
+def dense(groups):
+    """The groups that hold operators.  Two adjacent separators in the table
+    make an empty group; it holds nothing, so it dictates nothing: the order of
+    the remaining groups is the precedence order."""
+    return [g for g in groups if g]
+
+
 def well_formed(groups):
-    """A symbol has at most one unary and one binary role, there is at most one
-    name/value symbol, and no group is empty.  (A symbol that is both suffix and
-    binary would make 'a ! b' ambiguous by construction; such tables are not
-    part of the space.)"""
+    """A symbol has at most one unary and one binary role and there is at most
+    one name/value symbol.  (A symbol that is both suffix and binary would make
+    'a ! b' ambiguous by construction; such tables are not part of the space.)"""
     unary, binary, pairs = {}, set(), 0
     for g in groups:
-        if not g:
-            return False
         for s, t in g:
             if t == PAIR:
                 pairs += 1
@@ -120,7 +124,7 @@ class Table(object):
         self.binary = {}
         self.assoc = {}          # level -> 'l' | 'r'
         self.pair = None
-        for level, g in enumerate(groups, 1):
+        for level, g in enumerate(dense(groups), 1):
             for s, t in g:
                 if t == PAIR:
                     self.pair = s
